@@ -32,9 +32,9 @@ from ..core import ROOT, Check, Driver, HarnessError, ddmin, proof_stage
 PROP = "C08"
 DRIVER = Driver("driver_c08", "Drivers/C08.lean")
 BYTES_SIG = "C08:bytes-undecodable-hex-collision"
-TEMPLATE_NAME_SIG = "C08:parameter-named-template"      # repaired by proposed_fixes/pending/C08_parameter_named_template.diff
-SET_ORDER_SIG = "D50:set-argument-order"                 # repaired by proposed_fixes/pending/D50_set_argument_order.diff
-NOSELF_REUSE_SIG = "C08:noself-decorator-reuse"         # repaired by proposed_fixes/pending/C08_noself_decorator_reuse.diff
+TEMPLATE_NAME_SIG = "C08:parameter-named-template"      # repaired by proposed_fixes/D56_C08_parameter_named_template.diff
+SET_ORDER_SIG = "D50:set-argument-order"                 # repaired by proposed_fixes/D50_set_argument_order.diff
+NOSELF_REUSE_SIG = "C08:noself-decorator-reuse"         # repaired by proposed_fixes/D57_C08_noself_decorator_reuse.diff
 SPEC_KINDS = ("canon", "sep", "facade", "flight")
 BINDS = {"b": "bind", "p": "bind_partial", "d": "bind+apply_defaults", "q": "bind_partial+apply_defaults"}
 
